@@ -226,6 +226,12 @@ class Ctx:
     def validate_trace(self, module, trace, constants=None, invariants=(), what="trace", timeout=600):
         """Validates one recorded implementation trace (ndjson) against a Trace*/Abs* specification with TLC.
         Returns (accepted, info).  A rejected trace becomes a violation carrying the first unmatched event."""
+        if not os.path.exists(trace):
+            # the driver that should have written it stopped at a disagreement (already recorded as a violation)
+            if self.violations or self.known_fired:
+                self.notes.append("trace %s was not written: its driver stopped at a recorded violation" % os.path.basename(trace))
+                return False
+            raise ToolError("trace %s was not written" % trace)
         n_events = sum(1 for _ in open(trace))
         st = self.tlc(module, constants or {}, invariants=list(invariants), postcondition="Accepted", workers=1, timeout=timeout,
                       env_extra={"TRACE": trace}, label=module, trace_run=True)
